@@ -33,6 +33,8 @@ Module Grp.
     nclaims : nat;         (* claims of a session *)
     retry : nat;           (* Consumer.Group.Rebalance.Retry.Max *)
     elock : bool;          (* handleError / close(c.errors) serialised by errorsLock (repaired tree) *)
+    hctx : bool;           (* the handler's ConsumeClaim does not range over Messages() but blocks on
+                              session.Context().Done(): it returns only once the session is cancelled *)
     fuel0 : nat;
     work0 : nat;
     max_calls : nat;       (* Close calls the application makes *)
@@ -476,9 +478,13 @@ Module Grp.
       | 0 => None
       end
     | AGRunEnd err =>
-      (* ConsumeClaim returns: its Messages() was closed (after the watcher's AsyncClose) or by itself *)
+      (* ConsumeClaim returns: its Messages() was closed (after the watcher's AsyncClose) or by itself; a handler
+         that waits for the session context ([hctx]) returns only after the session was cancelled — by another
+         consume goroutine's exit, by the heartbeat loop, or by the partition-number watcher (ALStop / ALExit),
+         the only one of them that reacts to c.closed when no claim ends by itself *)
       match n_run s with
-      | S k => if err then
+      | S k => if hctx c && negb (ctx_done s) then None else
+               if err then
                  match toil s with
                  | Some s1 => if he_check c s
                               then Some (set_claims s1 (n_start s) (n_new s) k (n_wait s) (S (n_he s)) (n_defer s))
